@@ -48,7 +48,9 @@ fn strategy(max_m: usize, max_n: usize, work: u64) -> impl Strategy<Value = Case
         1 => Just(Shape::Disjoint),
     ];
     (variant_strategy(), hasher_strategy(), prop_oneof![2 => 1usize..8, 3 => 1usize..=max_n], shape).prop_flat_map(move |(variant, hasher, n, shape)| {
-        (crate::gen::m_strategy(2, max_m), weights(n, false), weights(n, false), prop::collection::vec(0u8..4, n), any::<u8>(), any::<u64>()).prop_map(move |(m, w1, w2, member, entry, seed)| {
+        (crate::gen::m_strategy(2, max_m), weights(n, false), weights(n, false), prop::collection::vec(0u8..4, n), any::<u8>(), any::<u64>(), prop_oneof![3 => Just(0i32), 1 => -950i32..950]).prop_map(move |(m, w1, w2, member, entry, seed, scale)| {
+            // one case in four: both sets multiplied by a common power of two (J_P is unchanged, exactly): weights from 1e-292 to 1e298
+            let (w1, w2): (Vec<f64>, Vec<f64>) = (w1.iter().map(|w| w * 2f64.powi(scale)).collect(), w2.iter().map(|w| w * 2f64.powi(scale)).collect());
             let n = w1.len();
             let mut wa = vec![0.0; n];
             let mut wb = vec![0.0; n];
@@ -227,13 +229,15 @@ pub fn eval(c: &Case) -> Eval {
         .class_if(pl.exact_zero, "disjoint(exactly-0)")
         .class_if(j > 0.0 && j < 1.0, "0<J_P<1")
         .class_if(wmax / wmin >= 1e6, "weight-ratio>=1e6")
+        .class_if(wmax < 1e-15, "all-weights<1e-15")
+        .class_if(wmin > 1e15, "all-weights>1e15")
         .class_if(c.m > na.max(nb), "m>n")
         .class_if(pl.ncells >= 2, "single-set-cells>=2"))
 }
 
 pub fn run(ctx: &Ctx) {
     ctx.set_rule("proptest generates (variant 2/3/3a/3a-Sha, hasher, entry point item-wise / weighted-set iterator / IndexMap / HashMap / integer-weight IndexMap, m >= 2, two weight vectors over a common universe of 1..300 items from the strata equal / small integers / log-uniform 1e-6..1e6 / one item 1e6..1e12 x the rest, \
-        with overlap patterns independent / same weight on common items / proportional / dyadic / identical / disjoint, trial seed). Per trial: fresh random item labels, both sets sketched, statistic = compute_probminhash_jaccard. Oracle: exact J_P (compensated summation). \
+        with overlap patterns independent / same weight on common items / proportional / dyadic / identical / disjoint; in one case out of four both sets are multiplied by a common power of two 2^k, |k| < 950 (weights from 1e-292 to 1e298; J_P is unchanged); trial seed). Per trial: fresh random item labels, both sets sketched, statistic = compute_probminhash_jaccard. Oracle: exact J_P (compensated summation). \
         Decisions (delta 1e-14 per comparison, confirmation on an independent seed with 4x trials): |mean - J_P| within Bernstein with variance J_P(1-J_P)/m; mean of (est-J_P)^2 <= J_P(1-J_P)/m + empirical-Bernstein slack; for set A the fraction of positions holding an item of each cell (items with >= 50 expected hits, the rest lumped) has mean w/sum(w); \
         per trial exactly 1 for dyadic scaling and exactly 0 for disjoint supports. Non-trivial = 0 < J_P < 1, both sets >= 2 items, T m J_P(1-J_P) >= 400. Trials come from a work budget, never from the clock.");
     super::run_fixed_tier(ctx, replay);
